@@ -142,7 +142,7 @@ theorem fromDecoded_denotes (E : Engine) (h : Sound E) (inner : Option (String â
     | some i => exact Denotes.json s _ _ hd (Denotes.numInt r i hf)
     | none => exact Denotes.json s _ _ hd (Denotes.num r)
   | leaf k p => exact Denotes.leaf _ _ (leafSound_self s)
-  | str t => exact Denotes.json s _ _ hd (scalarUnion_denotes E h t)
+  | str t => exact Denotes.leaf _ _ (leafSound_self s)
   | obj kvs =>
     simp only
     split
